@@ -159,7 +159,7 @@ class C10(Prop):
             'executed `continue` iff the command was resume, `quit` iff quit, nothing otherwise. prompt-loop: TerminalUI with scripted input '
             'prompts exactly until the first resume/quit. real-gdb: a generated C mock of libwayland under the real gdb with the unmodified plugin and a '
             'breakpoint matcher; the messages after which gdb halts the program must be those for which stop() is True on the stand-in. non-trivial = history with a halting and a non-halting message, a breakpoint in force '
-            'and >= 1 command; distinct by SHA-1 of the op list.')
+            'and >= 1 command; distinct by SHA-1 of the op list. A quit may be declined at gdb\'s confirmation (the stand-in raises `Not confirmed.`): the session goes on and halts are judged as before. Bare-id break texts are evaluated by the reference semantics.')
     assumptions = ['fakegdb stand-in for the gdb module; closures are converted from well-formed generated histories',
                    'breakpoint accumulation model shared with C12 (absorbed alternatives unspecified: skipped and counted)']
     stages = [Machine(), Prompt(), RealGdb()]
